@@ -10,7 +10,7 @@ sd = os.path.join(wt, '_seed') if os.path.isdir(os.path.join(wt, '_seed')) else 
 patch = os.path.join(sd, 'patch.diff')
 demo = next((os.path.join(sd, f) for f in ('demo.py', 'test_demo.py') if os.path.exists(os.path.join(sd, f))), None)
 meta = json.load(open(os.path.join(sd, 'meta.json')))
-orig = wt if sd != wt else '/tmp/seed-' + meta['property']   # the path the demonstration was written against
+orig = wt if sd != wt else meta.get('demo_written_against', '/tmp/seed-' + meta['property'])   # the path the demonstration was written against
 res = {'suite': None, 'demo_with_change_rc': None, 'demo_without_change_rc': None, 'checks': {}}
 d = tempfile.mkdtemp(prefix='deepseed-')
 try:
@@ -62,5 +62,6 @@ if os.path.exists(os.path.join(out, 'meta.json')):
 prev.update(res['checks'])
 res['checks'] = prev
 meta['verified'] = res
+meta['demo_written_against'] = orig
 meta['how_verified'] = 'tools/seed.py: scratch copy of /repo + patch; tools/baseline.py on the copy; demo with and without the change; ./check <id> with VERIF_REPO=<copy>'
 json.dump(meta, open(os.path.join(out, 'meta.json'), 'w'), indent=1)
